@@ -36,12 +36,15 @@ class ProofDef:
         self.doc = doc
         self.bounded_only = bounded_only
         self.thorough_only = thorough_only
+        self.shards = 1
 
 
-def proof(name, functions=(), assumptions=(), family=None, stubs=(), bounded_only=False, thorough_only=False):
+def proof(name, functions=(), assumptions=(), family=None, stubs=(), bounded_only=False, thorough_only=False,
+          shards=1):
     def deco(fn):
         PROOFS[name] = ProofDef(name, fn, name.split("/")[0], list(functions), assumptions, family,
                                 list(stubs), (fn.__doc__ or "").strip(), bounded_only, thorough_only)
+        PROOFS[name].shards = shards
         return fn
     return deco
 
@@ -139,6 +142,8 @@ class VCBase:
         try:
             return Outcome("ret", fn(*a, **k))
         except Exception as e:       # engine control exceptions are BaseException: not caught
+            if isinstance(e, (z3.Z3Exception, HarnessError)):
+                raise                 # a fault of the engine / harness, never an outcome of the code
             return Outcome("exc", exc=e)
 
 
@@ -212,6 +217,9 @@ class VCSym(VCBase):
 
     def cover(self, label):
         self.ctx.cover("%s/cover.%s" % (self.name, label))
+
+    def tick(self, n=1):
+        pass
 
     def unreachable(self, label):
         """reaching this point is itself a violated obligation"""
@@ -408,6 +416,11 @@ class VCConc(VCBase):
         self.results = []        # (full name, ok, detail)
         self.covers = set()
         self.used = set()
+        self.ticks = 0
+
+    def tick(self, n=1):
+        """count individual cases explored inside one harness evaluation (fault enumeration)"""
+        self.ticks += n
 
     def _get(self, name):
         if name not in self.inputs:
@@ -539,7 +552,7 @@ def ensure_repo_importable():
 
 
 # ---------------------------------------------------------------------------------------
-def run_symbolic(pdef, cvc5=False):
+def run_symbolic(pdef, cvc5=False, work=None, frontier=None):
     run = core.Run(pdef.name, cvc5=cvc5)
     run.oblig_prefix = pdef.name + "/"
     t0 = time.time()
@@ -554,7 +567,7 @@ def run_symbolic(pdef, cvc5=False):
             vc.cleanup()
 
     try:
-        run.explore(one)
+        run.explore(one, work=work, frontier=frontier)
     except (PathEnd, Undecided):
         raise
     except HarnessError as e:
@@ -566,9 +579,20 @@ def run_symbolic(pdef, cvc5=False):
     return run
 
 
+LAST_TICKS = [0]
+
+
 def run_concrete(pdef, inputs):
     """returns (status, results) with status in ok | skip | error"""
     vc = VCConc(pdef, inputs)
+    LAST_TICKS[0] = 0
+    try:
+        return _run_concrete(pdef, inputs, vc)
+    finally:
+        LAST_TICKS[0] = vc.ticks
+
+
+def _run_concrete(pdef, inputs, vc):
     try:
         pdef.fn(vc)
     except Skip as e:
